@@ -312,9 +312,9 @@ def np_linalg_eig(interp, s):
 
 @model(np.interp)
 def np_interp(interp, x, xp, fp, *a, **kw):
-    """ASSUMED contract of np.interp for non-decreasing xp (obligation) and len(xp) == len(fp) >= 1: the result r[t] lies
-    between min and max of fp over the bracketing nodes; with fp non-decreasing this gives fp[0] <= r[t] <= fp[-1] and
-    r non-decreasing in x.  Only these consequences are assumed (stated under the hypothesis that fp is non-decreasing)."""
+    """ASSUMED contract of np.interp(x, xp, fp) for len(xp) == len(fp) >= 1, xp non-decreasing and fp non-decreasing
+    (all three are precondition OBLIGATIONS of this model: it is the model of inverting a cumulative distribution):
+    every result lies in [fp[0], fp[-1]] and the result is non-decreasing in x."""
     if not deep_sym(x) and not deep_sym(xp) and not deep_sym(fp):
         return np.interp(x, xp, fp, *a, **kw)
     if a or kw:
@@ -323,22 +323,27 @@ def np_interp(interp, x, xp, fp, *a, **kw):
     xs, xps, fps = to_sarr(x), to_sarr(xp), to_sarr(fp)
     n = xps.shape[0]
     fx, fxp, ffp = xs.copy().fn, xps.copy().fn, fps.copy().fn
-    _sorted_obligation(interp, fxp, n, "interp-xp-nondecreasing")
-    c.oblige("pre/%s/interp-nonempty@%s" % (c.ghost.get("fn_label", "?"), c.ghost.get("line", 0)),
-             z3.And(lift(n) >= 1, lift(fps.shape[0]) == lift(n)), clause="np.interp needs at least one node and len(xp) == len(fp)")
+    where = "%s/%%s@%s" % (c.ghost.get("fn_label", "?"), c.ghost.get("line", 0))
+    c.oblige("pre/" + where % "interp-nonempty", z3.And(lift(n) >= 1, lift(fps.shape[0]) == lift(n)),
+             clause="np.interp needs at least one node and len(xp) == len(fp)")
+    # xp non-decreasing, stated for an ARBITRARY adjacent pair (a fresh position: universally quantified)
+    k = c.fresh("interp_k", "int")
+    c.oblige("pre/" + where % "interp-xp-nondecreasing",
+             z3.Implies(z3.And(k.e >= 0, k.e < lift(n) - 1), lift(fxp(k)) <= lift(fxp(k + 1))),
+             clause="np.interp: xp[k] <= xp[k+1] for every k")
+    _sorted_obligation(interp, ffp, n, "interp-fp-nondecreasing")
     nm = c.fresh_name("interp")
     rf = z3.Function(nm, I, R)
-    i, j, t, u = z3.Int("i!i"), z3.Int("j!i"), z3.Int("t!i"), z3.Int("u!i")
+    t, u = z3.Int("t!i"), z3.Int("u!i")
     c.bound_depth = getattr(c, "bound_depth", 0) + 1
     try:
-        fp_sorted = z3.ForAll([i, j], z3.Implies(z3.And(i >= 0, i < j, j < lift(n)), lift(ffp(Sym(i))) <= lift(ffp(Sym(j)))))
         first, last = lift(ffp(0)), lift(ffp(Sym(lift(n) - 1)))
-        k = xs.shape[0]
-        within = z3.ForAll([t], z3.Implies(_qrange(t, k), z3.And(first <= rf(t), rf(t) <= last)))
-        mono = z3.ForAll([t, u], z3.Implies(z3.And(_qrange(t, k), _qrange(u, k), lift(fx(Sym(t))) <= lift(fx(Sym(u)))), rf(t) <= rf(u)))
+        kx = xs.shape[0]
+        within = z3.ForAll([t], z3.Implies(_qrange(t, kx), z3.And(first <= rf(t), rf(t) <= last)))
+        mono = z3.ForAll([t, u], z3.Implies(z3.And(_qrange(t, kx), _qrange(u, kx), lift(fx(Sym(t))) <= lift(fx(Sym(u)))), rf(t) <= rf(u)))
     finally:
         c.bound_depth -= 1
-    c.assume(z3.Implies(fp_sorted, z3.And(within, mono)))
+    c.assume(z3.And(within, mono))
     interp.trusted_used.add("model:np.interp(x, xp, fp) with xp, fp non-decreasing: within [fp[0], fp[-1]] and non-decreasing in x")
     return SArr((xs.shape[0],), lambda q: Sym(rf(lift(q))), "real")
 
